@@ -12,6 +12,7 @@ Contract clauses evaluated on every case
   N2 determinism  the same construct built and compiled twice (fresh MetaData, fresh dialect) renders the same name
   N3 distinct     two different convention names in one MetaData (same long prefix, different tail) render differently
   N4 in-DDL       the DDL text contains exactly that (quoted) name
+  L0 compiles     the label / bind statements compile (a CompileError would be e.g. two binds truncated to one name)
   L1 bound        every generated label in the result map (anonymous, table-qualified, de-duplicated; not a label the
                   user spelled out, which is rendered as given) and every bind name has len <= label_length (or
                   max_identifier_length)
@@ -21,7 +22,6 @@ Contract clauses evaluated on every case
 `bounded(run, tier, seed)` appends ONE block to run.coverage["bounded"] and reports through `run`.
 """
 import hashlib
-import itertools
 import json
 import warnings
 
@@ -145,7 +145,7 @@ def eval_naming(case):
                     raw = (prep.truncate_and_render_index_name if isix else prep.truncate_and_render_constraint_name)(obj.name, _alembic_quote=False) if obj.name is not None else None
                     rendered = prep.format_index(obj) if isix else prep.format_constraint(obj)
                     ddl = str((CreateIndex(obj) if isix else (CreateTable(obj.table) if case["con"] in ("pk",) else AddConstraint(obj))).compile(dialect=d))
-            except exc.IdentifierError as e:
+            except exc.IdentifierError:
                 got.append(("IdentifierError", None, None, str(obj.name)))
                 continue
             except C.DOCUMENTED as e:
@@ -227,7 +227,8 @@ def eval_label(case):
                 comp = stmt.compile(dialect=d)
                 texts.append(str(comp))
         except C.DOCUMENTED as e:
-            return 1, [], []
+            # these SELECTs are plain and compile on every dialect; a CompileError here is e.g. two binds truncated to one name
+            return 1, [("L0_compiles", "%s: %s" % (type(e).__name__, str(e)[:200]))], []
     d = comp.dialect
     eff = d.label_length or d.max_identifier_length
     rnames = [rc.keyname for rc in comp._result_columns]
